@@ -187,6 +187,7 @@ fn opname(op: &str) -> &'static str {
         ">" => "gt",
         ">=" => "gte",
         "==" => "eq",
+        "neg" => "neg",
         _ => "neq",
     }
 }
@@ -326,7 +327,7 @@ pub fn run(ctx: &Ctx) -> Report {
         "C06",
         "exploration",
         "all pairs of the integer boundary lattice x 11 operators x 3 syntactic forms (literal op literal; variable op literal inside a function; \
-         literal op variable inside a function), checked against i128 arithmetic; plus tape-generated 61-bit pairs, float pairs (IEEE host oracle, bit comparison), \
+         literal op variable inside a function), and unary minus over the lattice (literal, parameter, global, applied twice), checked against i128 arithmetic; plus tape-generated 61-bit pairs, float pairs (IEEE host oracle, bit comparison), \
          string pairs (code point order) and the complete 7x7 type cross product. non-trivial = a negative or >=2^31 operand, a result within 2 of a range end, \
          an expected error, any float/string/cross-type case; distinct by source text",
     );
@@ -359,6 +360,32 @@ pub fn run(ctx: &Ctx) -> Report {
                         check_src(r, "lattice", &format!("int-form{form}"), op, &src, &e);
                     }
                 }
+            }
+        }
+        // (1b) unary minus over the complete lattice, in three forms (the range is not symmetric: -MIN does not exist)
+        for (i, a) in lat2.iter().enumerate() {
+            if i % shards != shard {
+                continue;
+            }
+            let e = int_oracle(0, "-", *a);
+            for (form, src) in [
+                ("literal", format!("-({})", int_text(*a))),
+                ("parameter", format!("functie f(x) {{ -x }} f({})", int_text(*a))),
+                ("global", format!("stel x = {}; -x", int_text(*a))),
+                ("twice", format!("functie f(x) {{ -(-x) }} f({})", int_text(*a))),
+            ] {
+                let e = if form == "twice" {
+                    // -(-x) is x, unless the inner negation already leaves the range
+                    match &e {
+                        Expect::Error => Expect::Error,
+                        _ => Expect::Int(*a),
+                    }
+                } else {
+                    e.clone()
+                };
+                r.nontrivial(&src);
+                r.count("negate");
+                check_src(r, "lattice", &format!("negate:{form}"), "neg", &src, &e);
             }
         }
         if shard == 0 {
